@@ -4,6 +4,7 @@
 //! extracted byte-level model Serial.encode_rows (theorems C07_fits_*); writer fed by lazy
 //! operators of inexact size hint must produce the same bytes as the in-memory writer.
 use crate::asciix;
+use crate::fitsx;
 use crate::common::*;
 use crate::dispatch;
 use crate::iters::*;
@@ -363,6 +364,20 @@ pub fn check_moc(rep: &mut Report, orc: &mut Oracle, m: &Moc) -> bool {
               rep.violation("FITS write/read does not round-trip", &shown, &format!("{:?}", fo.decoded), &format!("OK {}", m.dr()), "C07_fits_rows_roundtrip");
             }
           }
+        }
+        if reference.is_none() {
+          // whole file, byte for byte, against Model/FitsCodec.v; and the reader beside the model's
+          rep.evaluations += 1;
+          rep.count("fits-file-exact");
+          let req = format!("FITSW {} {} {} {}", m.q.c(), m.w, m.d, ranges_str(&m.r));
+          let model_file = orc.ask(&req);
+          let hx: String = bytes.iter().map(|b| format!("{:02x}", b)).collect();
+          if model_file != format!("OK {}", hx) {
+            ok = false;
+            let pos = model_file.bytes().skip(3).zip(hx.bytes()).position(|(a, b)| a != b).unwrap_or(0) / 2;
+            rep.corr_break("the FITS file written differs from the byte-level model", &format!("{} # {}", req, shown), &format!("{} bytes, first difference at byte {}: {:?}", bytes.len(), pos, String::from_utf8_lossy(&bytes[pos.saturating_sub(20).min(bytes.len())..(pos + 40).min(bytes.len())])), &format!("{} bytes", (model_file.len().saturating_sub(3)) / 2), "src/deser/fits ranges_to_fits_ivoa == Model/FitsCodec.v fits_write (C07_fits_file_roundtrip)");
+          }
+          ok &= fitsx::compare_reader_fits(rep, orc, &bytes, "written", "none");
         }
         match &reference {
           None => reference = Some(bytes),
